@@ -380,7 +380,7 @@ func (fr *frame) applyContract(b *ssa.BasicBlock, st *state, ins ssa.Instruction
 			c.assume(implies(bc, vc.trClause(trPost, cl)))
 		}
 	}
-	if ct.Defines != nil && len(results) > 0 {
+	if ct.Defines != nil && len(results) > 0 && (ct.DefinesLayer == "" || ct.DefinesLayer == vc.layer) {
 		trD := bind(pre, pre, results)
 		trD.depth = 1
 		val, _ := trD.expr(ct.Defines)
@@ -399,6 +399,9 @@ func (fr *frame) applyContract(b *ssa.BasicBlock, st *state, ins ssa.Instruction
 	vc.lemmaInstances(pre, st, bc)
 	// ghost events emitted by the callee (definitional)
 	for _, em := range ct.Emits {
+		if em.Layer != "" && em.Layer != vc.layer {
+			continue // a ghost event recorded for one property's layer only
+		}
 		key := "G_" + em.Label
 		if !vc.ensureKey(key) {
 			continue
